@@ -942,7 +942,7 @@ theorem call_keeps_cur (s : St) (o : Obs) (s1 : St) (ms ms1 : UniqM) (hidle : s.
 theorem live_of_run_aux (s : St) (o : Obs) (s1 : St) (hl : s.live = true) (h1 : step s o = some s1) :
     s1.live = true := by
   cases o <;> simp only [step] at h1
-  case chg => 
+  case chg =>
     split at h1
     · split at h1 <;> simp at h1; subst h1; exact hl
     · simp at h1
@@ -980,11 +980,12 @@ theorem replay_notifications_run (s s1 s2 : St) (o : Obs) (ns : List Note) (hi :
       · split at hst <;> simp at hst; subst hst; rfl
       · simp at hst
     obtain ⟨hlv, hi2, hrest⟩ := hR2
-    have hl2 : s2.live = true := by rw [← hlv]; 
-                                    simp only [monC20Unique, hl1', Bool.not_true, Bool.false_eq_true, if_false] at hst
-                                    split at hst
-                                    · split at hst <;> simp at hst; subst hst; rfl
-                                    · simp at hst
+    have hl2 : s2.live = true := by
+      rw [← hlv]
+      simp only [monC20Unique, hl1', Bool.not_true, Bool.false_eq_true, if_false] at hst
+      split at hst
+      · split at hst <;> simp at hst; subst hst; rfl
+      · simp at hst
     obtain ⟨_, hnd, hbz⟩ := hrest hl2
     have hidle2 : s2.busy = none := by
       simp only [OLTS.run] at hrb
